@@ -1,3 +1,4 @@
 // placeholder written by harness/gen/zoo.py (the real file is a build artefact of bin/check C06)
 pub const GEN_HASH: &str = "placeholder";
 pub static CASES: &[&shredh::zoo::Ops] = &[];
+pub static TWINS: &[shredh::zoo::TwinFn] = &[];
